@@ -88,10 +88,23 @@ def pyRun : Dict KAtom KAtom → List (Op KAtom KAtom) → List String
     | .error e => s!"err {e.name}" :: pyRun d ops
     | .ok (d', r) => s!"ok {showPairs d'} {showRet r} []" :: pyRun d' ops
 
+/-- The key / value traits of the Dict-trait stream (`tdo` / `tdof`: the value of a `Dict(K, V)` trait on
+a truthy / an alive-but-falsy HasTraits owner — the owner's truth value must make no difference). -/
+def traitValidator (kind name : String) : Option (Callback KAtom KAtom) :=
+  if kind = "tdo" ∨ kind = "tdof" then
+    match name with
+    | "Int" => KAtom.validator "intonly"
+    | "CInt" => KAtom.validator "toint"
+    | "CStr" => KAtom.validator "tostr"
+    | "Range05" => KAtom.validator "range05"
+    | "Any" => KAtom.validator "id"
+    | _ => none
+  else KAtom.validator name
+
 def handle (line : String) : String :=
   match (clean line).splitOn "|" with
   | [kind, kv, vv, ns, init, ops] =>
-    match KAtom.validator (clean kv), KAtom.validator (clean vv), parseNotifiers ns, pairs? init,
+    match traitValidator (clean kind) (clean kv), traitValidator (clean kind) (clean vv), parseNotifiers ns, pairs? init,
         (fields ops ";").mapM parseOp with
     | some kv, some vv, some ns, some init, some ops =>
       if clean kind = "pd" then " ; ".intercalate (pyRun (Dict.ofPairs init) ops)
